@@ -22,26 +22,26 @@ CHECKS = {
          "evaluated on the implementation's own answers. C01_trie discharges the contract of StringTrie.longest_prefix_item the "
          "converter model is written against: the character trie pytrie implements (Model/Trie.lean: nodes, value slots, the walk "
          "remembering the last value seen) refines the dictionary contract for every history of assignments; the structural trie "
-         "is compared with the real converter.trie on every probe.",
+         "is compared with the real converter.trie on every probe. Exhaustive small scope on every run: every strict converter of 1-2 records over all strings of length <= 2 over {a, :} (thorough {a, b, :}) and every query string of length <= 3, all modes.",
     design="§7 C01", technique="Lean 4 theorem (refinement of the trie-index model to a brute-force longest-match spec) + model/implementation correspondence"),
  "C02": dict(
     text="Proof: C02_* state that expand splits at the first delimiter, resolves prefix or synonym (the empty prefix "
          "included) to its unique record, keeps the remainder untouched, agrees with expand_pair/expand_reference for "
          "every identifier under DelimOK, and that expand_all/expand_pair_all list canonical first then each URI "
          "synonym and nothing else. Known finding K2 marks the exact boundary (multi-symbol delimiter starting inside "
-         "prefix+delimiter).",
+         "prefix+delimiter). Exhaustive small scope on every run: every strict converter of 1-2 records over all strings of length <= 2 over {a, :} (thorough {a, b, :}) and every query string of length <= 3, all modes.",
     design="§7 C02", technique="Lean 4 theorem (partition lemma + refinement T0) + model/implementation correspondence"),
  "C03": dict(
     text="Proof: C03_member / C03_std / C03_expand_compressible (lossless) for converters whose canonical prefixes satisfy "
          "DelimOK, and C03_ce / C03_ec / C03_bijection for prefix-free maps, for all URIs, CURIEs and identifiers. "
-         "Correspondence feeds the implementation's own compress/expand outputs back into it (two-phase cases).",
+         "Correspondence feeds the implementation's own compress/expand outputs back into it (two-phase cases). Exhaustive small scope on every run: every strict converter of 1-2 records over all strings of length <= 2 over {a, :} (thorough {a, b, :}) and every query string of length <= 3, all modes.",
     design="§7 C03", technique="Lean 4 theorem (round-trip laws over the specification, transferred by T0) + two-phase model/implementation correspondence"),
  "C04": dict(
     text="Proof: C04_iff (strict construction succeeds iff no CURIE prefix / synonym and no URI prefix / synonym has two "
          "owners, for every finite collection in every order), C04_which (URI clashes are reported first), C04_listing "
          "(the error lists exactly the clashing pairs), C04_record (validators), C04_owner and C04_bimap (one owner per "
          "prefix; bimap / reverse_bimap mutually inverse), C04_loader_* (loaders hand validated records to the same "
-         "constructor). Correspondence plants every clash orientation and runs constructor, listing and loaders.",
+         "constructor). Correspondence plants every clash orientation and runs constructor, listing and loaders. Every ordered pair of small records (with synonyms and self-synonyms) is enumerated completely on every run.",
     design="§7 C04", technique="Lean 4 theorem (iff between the pairwise duplicate listing and one-owner uniqueness) + model/implementation correspondence"),
  "C05": dict(
     text="Proof: T2 (C05_step: add_record keeps the invariant WF = one owner per prefix + validated records + all indexes "
@@ -50,25 +50,25 @@ CHECKS = {
          "matches), C05_shape / C05_resolves (append unchanged or merge keeping canonical prefix, URI prefix and pattern), "
          "and C05_fresh / C05_histories_fresh (answers equal those of a converter freshly built from the current records, "
          "via T0 and permutation invariance of the specification), C05_lookup_structures (after any history prefix_map, synonym_to_prefix, reverse_prefix_map, the trie and pattern_map are, as functions, the ones computed from the current records; the Lean checker evaluates the same statement on the dictionaries the implementation exposes). Correspondence replays histories with planted overlaps "
-         "and observes records, all five lookup structures and a probe set after every operation.",
+         "and observes records, all five lookup structures and a probe set after every operation. Every one-step history over names differing only by case (3 072 quick / 28 812 thorough) is enumerated completely on every run.",
     design="§7 C05", technique="Lean 4 theorem (invariant by induction over operation histories, refinement T0) + history correspondence with full observation after each step"),
  "C06": dict(
     text="Proof: C06_prefix, C06_prefix_idem, C06_curie, C06_uri for every strict converter; C06_uri_idem / C06_uri_meaning "
          "for prefix-free maps (with a proved counterexample showing the hypothesis is needed). standardize_curie "
          "idempotence / meaning preservation are proved only under CanonDelimOK (_partial) because the property as "
-         "stated is false: C06_curie_idem_fails_without_delimOK proves the negation on a strict converter (known finding K1).",
+         "stated is false: C06_curie_idem_fails_without_delimOK proves the negation on a strict converter (known finding K1). Exhaustive small scope on every run: every strict converter of 1-2 records over all strings of length <= 2 over {a, :} (thorough {a, b, :}) and every query string of length <= 3, all modes.",
     design="§7 C06", technique="Lean 4 theorem (corollaries of T0; negation proved on a witness for K1) + model/implementation correspondence"),
  "C07": dict(
     text="Proof: C07_* state the equivalences is_uri⇔compress⇔parse_uri, is_curie⇔delimiter+known prefix⇔expand, URI "
          "precedence of parse, compress_or_standardize / expand_or_standardize as CURIE / canonical URI of parse, "
          "format_curie and the strict aliases, for every well-formed converter and every string. Correspondence uses "
-         "converters planted with strings that are both URI and CURIE.",
+         "converters planted with strings that are both URI and CURIE. Exhaustive small scope on every run: every strict converter of 1-2 records over all strings of length <= 2 over {a, :} (thorough {a, b, :}) and every query string of length <= 3, all modes.",
     design="§7 C07", technique="Lean 4 theorem (unfolding the model against T0) + model/implementation correspondence on ambiguous strings"),
  "C08": dict(
     text="Proof: one generic lemma about the shared tail (modeLaw_of_tail) instantiated for all 14 listed functions "
          "(C08_<function>): default never raises, passthrough returns the default value or the input, strict returns the "
          "default value or a library ValueError-derived error. Correspondence runs every function in all mode "
-         "combinations on a malformed-first stream; exception classes are classified from the live class hierarchy.",
+         "combinations on a malformed-first stream; exception classes are classified from the live class hierarchy. Exhaustive small scope on every run: every strict converter of 1-2 records over all strings of length <= 2 over {a, :} (thorough {a, b, :}) and every query string of length <= 3, all modes.",
     design="§7 C08", technique="Lean 4 theorem (mode law for the shared strict/passthrough tail, per function) + model/implementation correspondence"),
  "C09": dict(
     text="Proof: chain is modelled as written (a fold of add_record(copy, merge=True) into an empty converter), so T2 applies "
@@ -87,7 +87,8 @@ CHECKS = {
          "(chain, get_subconverter, the three reconciliation functions and discover leave every pre-existing object untouched "
          "and return a converter that references only new objects), C10_frame_followup and C10_histories (any finite follow-up "
          "history on the derived converter leaves every input's view unchanged), plus the negation for the pre-repair chain "
-         "on a witness. Tie to the code: histories that re-observe both inputs (records, lookup dicts, introspection views, "
+         "on a witness; C10_chain_refines / C10_copy_refines / addRecordH_sim (the aliasing-level operations compute exactly what "
+         "the value-level operations of C05 / C09 / C11 / C12 compute, so the frame theorems are about the same objects). Tie to the code: histories that re-observe both inputs (records, lookup dicts, introspection views, "
          "probe queries) after the derivation and after every follow-up, and object identity (the derived converter shares no "
          "Record object with an input).",
     design="§7 C10", technique="Lean 4 theorem (frame theorems over a heap-of-records model, induction over follow-up histories) + history correspondence re-observing the inputs"),
@@ -100,7 +101,7 @@ CHECKS = {
          "before the pair handing it over, order_ordered), C11_applied (an applicable pair onto an unused prefix, value of no other "
          "pair, makes the new prefix canonical for old's record) and C11_skipped (a pair aiming at a prefix of another, untouched "
          "record leaves both records as they were), C11_skip_unknown. The same clauses are evaluated by the Lean checker "
-         "Spec.C11.ok on the implementation's records on every run.",
+         "Spec.C11.ok on the implementation's records on every run. Every remapping of 1-2 (thorough 1-3) pairs over a seven-name universe, in every insertion order, is enumerated completely on every run.",
     design="§7 C11", technique="Lean 4 theorem (termination/permutation of the ordering, per-step invariants) + Lean spec checker on implementation output + model/implementation correspondence"),
  "C12": dict(
     text="Proof: C12_transitive_iff (TransitiveError iff some string is both key and value), C12_upgrade (for every record and "
@@ -108,7 +109,10 @@ CHECKS = {
          "iff unused or already a synonym of the record with the old canonical demoted to synonym, clash is a no-op), "
          "C12_remap_records / C12_rewire_records (the constructor receives exactly the per-record images), C12_rewire_unknown, "
          "C12_rewire_idem (rewiring the result of a successful rewiring with the same mapping succeeds and changes no record, for "
-         "every well-formed converter and every mapping). Idempotence is also checked on the implementation on every run.",
+         "every well-formed converter and every mapping), "
+         "C12_rewire_ok / C12_remap_ok (an injective mapping is never rejected, except as transitive by remap_uri_prefixes). "
+         "Idempotence and never-rejected are also checked on the implementation on every run; every injective mapping of 1-2 "
+         "(thorough 1-3) pairs over a small universe is enumerated completely.",
     design="§7 C12", technique="Lean 4 theorem (per-record upgrade law, transitivity iff) + Lean spec checker on implementation output + model/implementation correspondence"),
  "C13": dict(
     text="Proof: C13_pm (each listed pair expands accordingly and its URI prefix is registered for it), C13_priority (first URI "
